@@ -4,7 +4,10 @@
    with it within a stated bound by the correspondence check (props/C17).
    Domain of the property (valid_bus): CAN 2.0A bus, message sizes >= 0, cycle times >= 0 (0 means
    "use the default").  Any number of interfaces and messages. *)
+From Coq Require Import Reals Qreals.
+From Flocq Require Import Core IEEE754.Binary.
 From Coq Require Import ZArith QArith List Bool Permutation Sorted.
+Require Acme.C17.FloatBound.
 From Acme.C17 Require Import Model Proofs.
 Import ListNotations.
 Open Scope Q_scope.
@@ -168,3 +171,18 @@ Theorem load_ignores_delay : forall b b' def,
   end.
 Proof. exact load_ignores_delay_lemma. Qed.
 Print Assumptions load_ignores_delay.
+
+(* The float64 link (coq/C17/FloatBound.v), w.r.t. Flocq's IEEE-754 binary64 semantics: the Go
+   computation, modelled operation by operation in Go's order with round-to-nearest-even
+   (`load_float`), never overflows on the domain `float_domain` (CAN 2.0A, 1..900 messages, sizes
+   0..8, cycles 0..3600000, default 1..3600000, 1 <= baud < 2^53) and its result is within the
+   relative bound n * 2^-50 of the exact rational load — the bound the correspondence check uses —
+   whatever the order in which the messages are visited.  Uses the standard-library real-number
+   axioms through Flocq (listed by Print Assumptions).  Trusted: Go's float64 is IEEE-754 binary64. *)
+Theorem load_float_close : forall b def load es,
+  Acme.C17.FloatBound.float_domain b def -> calculate_bus_load b def = BLOk load es ->
+  is_finite 53 1024 (Acme.C17.FloatBound.load_float b def) = true
+  /\ (Rabs (B2R 53 1024 (Acme.C17.FloatBound.load_float b def) - Q2R load)
+      <= INR (length (bus_msgs b)) * bpow radix2 (-50) * Q2R load)%R.
+Proof. exact Acme.C17.FloatBound.load_float_close_lemma. Qed.
+Print Assumptions load_float_close.
